@@ -39,6 +39,8 @@ def parseMpdCfg (s : String) : Option MpdCfg :=
     | ["tsbd", v] => v.toNat?.map fun n => { c with tsbdS := n }
     | ["snr", v] => v.toNat?.map fun n => { c with startNr := n }
     | ["stop", v] => v.toNat?.map fun n => { c with stopS := some n }
+    | ["periods", v] => v.toNat?.map fun n => { c with periodsPerHour := some n }
+    | ["continuous", _] => some { c with continuous := true }
     | ["ato", "inf"] => some { c with ato := .inf }
     | ["ato", v] => v.toNat?.map fun n => { c with ato := .ms n }
     | ["mode", "n"] => some { c with mpdType := .number }
@@ -55,11 +57,14 @@ def asStr (o : ASOut) : String :=
   let tl := match o.tl with
     | none => "-"
     | some l => "[" ++ String.join (l.map fun (p : Nat × Nat) => s!"({p.1},{p.2})") ++ "]"
-  s!"{kindStr o.kind}:{o.rep} {if o.timeAddr then "time" else "nr"} sn={optStr o.startNr} ts={o.ts} dur={optStr o.dur} tl={tl}"
+  s!"{kindStr o.kind}:{o.rep} {if o.timeAddr then "time" else "nr"} sn={optStr o.startNr} ts={o.ts} dur={optStr o.dur} pto={optStr o.pto} cont={boolStr o.cont} tl={tl}"
+
+def periodStr (p : PeriodOut) : String :=
+  s!"P{p.id}@{p.startS}: " ++ joinWith " | " (p.sets.map asStr)
 
 def mpdStr (m : MpdOut) : String :=
-  s!"{if m.dynamic then "dynamic" else "static"} ast={m.astS} pt={m.ptMS} mpdur={optStr m.durS} | " ++
-    joinWith " | " (m.sets.map asStr)
+  s!"{if m.dynamic then "dynamic" else "static"} ast={m.astS} pt={m.ptMS} mpdur={optStr m.durS} || " ++
+    joinWith " || " (m.periods.map periodStr)
 
 def opMpd (st : DState2) (args : List String) : String :=
   match args with
@@ -67,6 +72,7 @@ def opMpd (st : DState2) (args : List String) : String :=
     match st.core.assets.find? (·.name = asset), st.mpds.find? (fun m => m.asset = asset ∧ m.name = name),
           parseMpdCfg cfgS, now.toNat? with
     | some a, some md, some cfg, some now =>
+      if (match cfg.periodsPerHour with | some p => decide (p < 1 ∨ p > 3600) | none => false) then "400" else   -- verifyAndFillConfig
       if now < cfg.startS * 1000 then "425 pre-start" else
       match liveMpd a md.sets cfg now with
       | .ok m => mpdStr m
